@@ -12,8 +12,9 @@ CONSTANTS
   OpenLimit = 2000
   EmitMod = 1
   EmitRem = 0
-  Fixed = {}
-INVARIANT DesignMeetsReferenceModuloKnown
-\* with Fixed = {"DEV1", "DEV2", "DEV4"} the full statement holds:  INVARIANT DesignMeetsReference
-\* counterexamples of the open findings:  INVARIANT StrictComplete / StrictNoIgnoredFile / StrictNoSysPathLeak
+  Fixed = {"DEV1", "DEV2", "DEV4"}
+INVARIANT DesignMeetsReference
+\* what-if (sensitivity): with a DEV removed from Fixed the matching strict invariant must fail:
+\*   DEV1 -> StrictComplete, DEV2 -> StrictNoIgnoredFile, DEV4 -> StrictNoSysPathLeak
+\* with open deviations the main invariant is DesignMeetsReferenceModuloKnown
 CHECK_DEADLOCK FALSE
